@@ -650,6 +650,11 @@ func writeNodes(w io.Writer, level int, nodes []Node, indent bool) error {
 			// single-line element whitespace between children is never rendered, and breaking
 			// the line there would make formatting unstable.
 			trailing = SpaceNone
+			// The Go expression of a call without a block ends where the line's next token begins: without
+			// the space, `@c() text` would become the expression `c()text`.
+			if isCallWithoutBlock(n) && nextNodeIsWhitespace(nodes, i) {
+				trailing = SpaceHorizontal
+			}
 		}
 		// Put a newline after the last node in indentation mode.
 		if indent && ((nextNodeIsBlock(nodes, i) || i == len(nodes)-1) || shouldAlwaysBreakAfter(n)) {
@@ -673,6 +678,16 @@ func writeNodes(w io.Writer, level int, nodes []Node, indent bool) error {
 func shouldAlwaysBreakAfter(node Node) bool {
 	if el, isElement := node.(Element); isElement {
 		return strings.EqualFold(el.Name, "br") || strings.EqualFold(el.Name, "hr")
+	}
+	return false
+}
+
+func isCallWithoutBlock(node Node) bool {
+	switch n := node.(type) {
+	case TemplElementExpression:
+		return len(n.Children) == 0
+	case CallTemplateExpression:
+		return true
 	}
 	return false
 }
